@@ -687,13 +687,18 @@ def translate(group):
     return "\n".join(parts)
 
 def main(argv):
-    try:
-        texts = [(os.path.join(OUTDIR, f), translate(g)) for g, f in ((1, "PySrcCore.v"), (2, "PySrcCore2.v"))]
-    except Unsupported as e:
-        print("py2coq_core: UNSUPPORTED: " + str(e), file=sys.stderr)
-        return 2
+    texts, failed = [], []
+    for g, f in ((1, "PySrcCore.v"), (2, "PySrcCore2.v")):
+        try:
+            texts.append((os.path.join(OUTDIR, f), translate(g)))
+        except Unsupported as e:
+            print(f"py2coq_core: FAILED {f}: UNSUPPORTED: {e}", file=sys.stderr)
+            failed.append(f)
+            if g == 1:
+                print("py2coq_core: FAILED PySrcCore2.v: depends on PySrcCore.v", file=sys.stderr); failed.append("PySrcCore2.v")
+                break
     if len(argv) > 1 and argv[1] == "--check":
-        same = all(os.path.exists(o) and open(o).read() == t for o, t in texts)
+        same = not failed and all(os.path.exists(o) and open(o).read() == t for o, t in texts)
         print("unchanged" if same else "CHANGED")
         return 0 if same else 1
     for o, t in texts:
@@ -702,7 +707,7 @@ def main(argv):
         else:
             open(o, "w").write(t)
             print("wrote", os.path.normpath(o))
-    return 0
+    return 2 if failed else 0
 
 if __name__ == "__main__":
     sys.exit(main(sys.argv))
